@@ -609,7 +609,12 @@ func checkExcludeLoops(c *Ctx) {
 				if name == "filter" {
 					c.Check("R19e", "schema."+name+"|range "+lname+"|keep iff !match", loop.Pos(), keepNested && !keepTop, "filter must keep an element exactly when the predicate reports no match")
 				} else if name != "excludeObjects" { // excludeObjects keeps per type-selector branch by design
-					c.Check("R19e", "schema."+name+"|range "+lname+"|keep is unconditional", loop.Pos(), keepTop && !keepNested, "the append that keeps a non-excluded resource is conditional: resources matching no pattern may be dropped")
+					okKeep := keepTop && !keepNested
+					if !okKeep && keepNested && !keepTop {
+						// `excluded, err := helper(s, …); if !excluded { keep }` where the helper reports true only after a pattern matched
+						okKeep = keepGuardedByExclusionHelper(c, fi, loop)
+					}
+					c.Check("R19e", "schema."+name+"|range "+lname+"|keep is unconditional", loop.Pos(), okKeep, "the append that keeps a non-excluded resource is conditional: resources matching no pattern may be dropped")
 				}
 			}
 			return true
@@ -789,4 +794,119 @@ func checkNoRebuildFromDesired(c *Ctx) {
 		})
 		c.Check("R19g", shortPkg(pp)+".(state).modifyTable|table not re-created from ModifyTable.T", pos, bad == "", "%s re-creates the table from the desired state (%s): columns, indexes and constraints whose drop (or modification) was filtered out by the skip policy are not in ModifyTable.Changes but are missing from ModifyTable.T, so the rebuild drops them anyway", fi.Name, bad)
 	}
+}
+
+// keepGuardedByExclusionHelper: every append of the loop variable in the loop is guarded only by the negation of a
+// boolean returned by a package-local function that returns true exclusively on paths where filepath.Match reported a match.
+func keepGuardedByExclusionHelper(c *Ctx, fi *FuncInfo, loop *ast.RangeStmt) bool {
+	info := fi.Info()
+	pm := parentMap(loop.Body)
+	ok, n := true, 0
+	ast.Inspect(loop.Body, func(m ast.Node) bool {
+		as, isAs := m.(*ast.AssignStmt)
+		if !isAs || len(as.Rhs) != 1 {
+			return true
+		}
+		call, isCall := as.Rhs[0].(*ast.CallExpr)
+		if !isCall || builtinName(info, call) != "append" || len(call.Args) != 2 || !appendsLoopVar(info, call.Args[1], loop) {
+			return true
+		}
+		n++
+		guards := 0
+		var child ast.Node = as
+		for p := pm[as]; p != nil; child, p = p, pm[p] {
+			ifs, isIf := p.(*ast.IfStmt)
+			if !isIf {
+				continue
+			}
+			var facts []fact
+			switch {
+			case child == ast.Node(ifs.Body):
+				facts = impliedFacts(ifs.Cond, true)
+			case child == ifs.Else:
+				facts = impliedFacts(ifs.Cond, false)
+			default:
+				continue
+			}
+			guards++
+			good := false
+			for _, f := range facts {
+				id, isID := ast.Unparen(f.expr).(*ast.Ident)
+				if !isID || f.val {
+					continue
+				}
+				// the variable comes from a package-local exclusion predicate
+				obj := info.ObjectOf(id)
+				ast.Inspect(fi.Decl.Body, func(k ast.Node) bool {
+					das, isDas := k.(*ast.AssignStmt)
+					if !isDas || len(das.Rhs) != 1 {
+						return true
+					}
+					for i, l := range das.Lhs {
+						if lid, isL := l.(*ast.Ident); isL && info.ObjectOf(lid) == obj {
+							if dc, isC := das.Rhs[0].(*ast.CallExpr); isC {
+								if fn := calleeOf(info, dc); fn != nil && fn.Pkg() != nil && fn.Pkg().Path() == fi.Pkg.PkgPath && returnsTrueOnlyOnMatch(c, fn, i) {
+									good = true
+								}
+							}
+						}
+					}
+					return true
+				})
+			}
+			if !good {
+				ok = false
+			}
+		}
+		if guards == 0 {
+			ok = false
+		}
+		return true
+	})
+	return ok && n > 0
+}
+
+// returnsTrueOnlyOnMatch: every `return …true…` (result i) of fn is reachable only through an edge on which the
+// result of filepath.Match is true.
+func returnsTrueOnlyOnMatch(c *Ctx, fn *types.Func, i int) bool {
+	cf := c.FuncInfoOf(fn)
+	if cf == nil || cf.Decl.Body == nil {
+		return false
+	}
+	info := cf.Info()
+	matchVars := map[types.Object]bool{}
+	ast.Inspect(cf.Decl.Body, func(m ast.Node) bool {
+		as, ok := m.(*ast.AssignStmt)
+		if !ok || len(as.Rhs) != 1 {
+			return true
+		}
+		if call, ok := as.Rhs[0].(*ast.CallExpr); ok {
+			if g := calleeOf(info, call); g != nil && g.Pkg() != nil && g.Pkg().Path() == "path/filepath" && g.Name() == "Match" {
+				if id, ok := as.Lhs[0].(*ast.Ident); ok {
+					matchVars[info.ObjectOf(id)] = true
+				}
+			}
+		}
+		return true
+	})
+	if len(matchVars) == 0 {
+		return false
+	}
+	f := newFlow(info, cf.Decl.Body)
+	matched := func(b *cfg.Block, si int) bool {
+		return edgeImplies(b, si, func(e ast.Expr, val bool) bool {
+			id, ok := ast.Unparen(e).(*ast.Ident)
+			return ok && val && matchVars[info.ObjectOf(id)]
+		})
+	}
+	retTrue := func(n ast.Node) bool {
+		r, ok := n.(*ast.ReturnStmt)
+		if !ok || i >= len(r.Results) {
+			return false
+		}
+		tv := info.Types[r.Results[i]]
+		return tv.Value == nil || tv.Value.String() != "false"
+	}
+	_, leak := f.reachEx([]point{f.entry()}, nil, retTrue, matched)
+	return !leak && len(f.find(retTrue)) > 0
 }
